@@ -518,6 +518,12 @@ def check_C01(ctx):
     cfgs = set((c["fam"]["nstream"], c["fam"]["stage"] > 0, c["fam"]["gv"], c["fam"]["nstate"]) for c in runs)
     ctx.stage("configuration coverage", streams_x_lsp_x_gv_x_nstate=len(cfgs), runs=len(runs),
               multi_result_cases=sum(1 for c in runs if not c["unique"]))
+    # the LSP path with the formant postfilter (vocoder level): clustered line spectral pairs inside the stable range
+    lcases, levs = _spectral(ctx, "lspbeta", "lspfin", lambda e, run: "lspfin:%s" % ("nonfinite" if not e.get("finite") else "growth"))
+    nb = sum(1 for e in levs if e.get("ev") == "lspfin" and e.get("beta8", 0) > 0)
+    if nb == 0:
+        raise ToolError("vacuous LSP postfilter stage")
+    ctx.stage("LSP postfilter finiteness", events=len(levs), with_beta=nb)
     voices = perturbed_voices(ctx, 1 if q else 3, "all")
     tpath = ctx.path("bundled.ndjson")
     p = run_jbv(["c01-record", ctx.seed, 150 if q else 5000, 12 if q else 60, tpath] + voices, timeout=7200)
